@@ -2,6 +2,7 @@ package rules
 
 import (
 	"fmt"
+	"go/token"
 
 	"dtnverif/core"
 
@@ -69,6 +70,62 @@ func checkAssignBeforePersist(p *core.Program, r *core.Report) {
 			return false
 		})
 		r.Check(ok, key, rule, p.Pos(pc.Pos()), "IdKeeper.update dominates this call", "this call can push the bundle to the store under its pre-assignment ID (sequence number still 0); bundles with equal source and creation time then share one store record")
+	}
+	// the keeper's counters are in memory and start at zero after a restart,
+	// the store's records do not: the number must be checked against the store.
+	checkRule := "the sequence number is checked against the persistent store before the bundle is pushed: every assignment (IdKeeper.update) is followed by a store lookup of the bundle's ID before any call that can reach Store.Push, and that call is reached only on the lookup's not-found outcome (the IdKeeper forgets its counters on a restart, bundles waiting in the store keep their IDs; Store.Push silently drops a bundle whose ID it knows)"
+	isLookup := func(i ssa.Instruction) bool {
+		c, ok := i.(*ssa.Call)
+		if !ok {
+			return false
+		}
+		n := core.CalleeName(c)
+		if !core.NameIs(n, storagePkg+".Store.QueryId") && !core.NameIs(n, storagePkg+".Store.KnowsBundle") {
+			return false
+		}
+		// looked up is <the numbered bundle>.ID()
+		idc, ok := core.CallArgs(c)[0].(*ssa.Call)
+		if !ok || !core.NameIs(core.CalleeName(idc), bp7+".Bundle.ID") || len(updCalls) == 0 {
+			return false
+		}
+		recv := core.CallRecv(idc)
+		if ld, isLd := recv.(*ssa.UnOp); isLd && ld.Op == token.MUL {
+			recv = ld.X // value receiver: ID is called on *bndl
+		}
+		return recv == core.CallArgs(updCalls[0])[0]
+	}
+	isPush := func(i ssa.Instruction) bool {
+		for _, pc := range pushCalls {
+			if i == ssa.Instruction(pc) {
+				return true
+			}
+		}
+		return false
+	}
+	for i, u := range updCalls {
+		ok, ex := core.MustPassAfter(u, isLookup, isPush)
+		d := ""
+		if !ok {
+			d = "path from this assignment to " + p.Pos(ex.Pos()) + " without a store lookup of the new ID: after a restart the counter restarts at 0 and the bundle takes the ID of one still waiting in the store; Store.Push ignores it as a duplicate"
+		}
+		r.Check(ok, fmt.Sprintf("assign-before-persist/%s/number-checked-against-store/update#%d", fname(sb), i), checkRule, p.Pos(u.Pos()), "", d)
+	}
+	for _, pc := range pushCalls {
+		conds := core.DominatingConds(pc.Block())
+		ok := false
+		for _, c := range conds {
+			if call, isC := core.CondIsCall(c, storagePkg+".Store.KnowsBundle"); isC && !c.True && isLookup(call) {
+				ok = true
+			}
+			if x, isNil, isN := core.NilCmp(c); isN && !isNil {
+				if ex, isEx := x.(*ssa.Extract); isEx {
+					if call, isCall := ex.Tuple.(*ssa.Call); isCall && isLookup(call) {
+						ok = true
+					}
+				}
+			}
+		}
+		r.Check(ok, "assign-before-persist/"+fname(sb)+"/push-only-when-id-unknown/"+shortName(core.CalleeName(pc)), checkRule, p.Pos(pc.Pos()), "", "this call is not dominated by the not-found outcome of a store lookup of the bundle's ID; "+condStrings(conds))
 	}
 	// nothing reachable from SendBundle assigns a sequence number after the push (transmit)
 	for _, cs := range allCallSites(p, routingPkg+".IdKeeper.update") {
